@@ -648,6 +648,12 @@ func (fr *Frame) execInstr(in ssa.Instruction, st *State) {
 	switch in := in.(type) {
 	case *ssa.Alloc:
 		elem := in.Type().Underlying().(*types.Pointer).Elem()
+		if at, ok := elem.Underlying().(*types.Array); ok {
+			// arrays are not flattened: the object's rows hold the elements from slot 0
+			obj := fr.alloc(st, at.Elem())
+			fr.env[in] = scalar(MkPtr(obj, IntLit(0)))
+			break
+		}
 		obj := fr.alloc(st, elem)
 		fr.env[in] = scalar(MkPtr(obj, IntLit(ti.BaseSlot(elem))))
 	case *ssa.FieldAddr:
@@ -807,7 +813,8 @@ func (fc *FnCtx) note(s string) { fc.assumptions[s] = true }
 
 func (fr *Frame) alloc(st *State, elem types.Type) *Term {
 	fc := fr.fc
-	obj := fc.sc.Define("obj", st.next)
+	obj := fc.sc.Fresh("obj", SInt)
+	fc.sc.Assert(app(SBool, "=", obj, st.next))
 	st.next = fc.sc.Define("next", Add(st.next, IntLit(1)))
 	// zero-initialise every leaf sort that occurs in elem
 	sorts := map[Sort]bool{}
@@ -827,7 +834,8 @@ func (fr *Frame) alloc(st *State, elem types.Type) *Term {
 
 func (fr *Frame) allocRaw(st *State) *Term {
 	fc := fr.fc
-	obj := fc.sc.Define("obj", st.next)
+	obj := fc.sc.Fresh("obj", SInt)
+	fc.sc.Assert(app(SBool, "=", obj, st.next))
 	st.next = fc.sc.Define("next", Add(st.next, IntLit(1)))
 	return obj
 }
